@@ -971,6 +971,96 @@ def precision_requirements():
 # conversions that only the READER performs (accepted input that WNTR's own writer never produces): (sec, destination, guard)
 READER_ONLY = [("STATUS", "initial_setting", ("isa:Valve",))]  # a numeric valve setting in [STATUS]; the writer puts valve settings into [VALVES]
 
+FIELDS_HAND = list(FIELDS)
+CTOR = {"Junction": "add_junction", "Tank": "add_tank", "Reservoir": "add_reservoir", "Pipe": "add_pipe", "HeadPump": "add_pump", "PowerPump": "add_pump",
+        "Valve": "add_valve", "GPValve": "add_valve", "Curve": "add_curve", "Pattern": "add_pattern", "Source": "add_source"}
+DERIVED = set()   # the fields found from the source alone (filled by build_fields)
+
+
+def slot_base(name):
+    """the attribute a slot name is about: wrappers (`LinkStatus(x).name`, `_sec_to_string(x)[0]`), component suffixes
+    (`[0]`, `[][1]`, `.append.0`) and the leading underscore of a private attribute removed"""
+    n = name
+    m = re.match(r"^\w+\((.*)\)(?:\.name|\[\d+\])?$", n)
+    if m:
+        n = m.group(1)
+    n = re.sub(r"(\[[^\]]*\])+$", "", n)
+    n = re.sub(r"\.append(\.\d+)?$", "", n)
+    parts = n.split(".")
+    parts[-1] = parts[-1].lstrip("_")
+    return ".".join(parts)
+
+
+def derive_fields(rows, emitted):
+    """fields that need no human judgement: in ONE section the writer reads the attribute named like the to_dict key and the
+    reader fills the attribute / add_* parameter of that name (`slot_base`); element names: the writer iterates the name
+    list of the class the reader creates; [TIMES]: the reader's generic `<word0>_<word1>` rule; guards = the tokens common
+    to the two sides"""
+    out = []
+    secs = []
+    for r in rows:
+        if r["sec"] not in secs:
+            secs.append(r["sec"])
+    for cls, keys in emitted.items():
+        for key in keys:
+            full = (cls.lower() + "." + key) if cls.startswith("Options.") else key
+            ctor = CTOR.get(cls, "add_x")
+            for sec in secs:
+                W, R = [], []
+                for x in rows:
+                    if x["sec"] != sec or x["const"] and x["dir"] == "w" and x.get("src") != "(test)":
+                        continue
+                    b = slot_base(x["name"])
+                    if x["dir"] == "w":
+                        if b == full or (key == "name" and re.match(r"^wn\.\w+_name_list$", b)):
+                            W.append(x)
+                    else:
+                        if b == full or b == "%s.%s" % (ctor, key) or (cls == "Options.time" and x["name"] == "options.time.*"):
+                            R.append(x)
+                if key == "name" and not any(x["name"] == ctor + ".name" for x in R):
+                    continue
+                if any(not x["const"] for x in W):
+                    W = [x for x in W if not x["const"]]  # an attribute that is printed is not also "written through a test"
+                if not W or not R or (cls, key) in OUTSIDE:
+                    continue
+                seen = []
+                for w in W:
+                    cw = set(t for t in w["ctx"].split("|") if t)
+                    best = None
+                    for r in R:
+                        cr = set(t for t in r["ctx"].split("|") if t)
+                        if r["name"].endswith(".*"):
+                            if cw != set(key.upper().split("_")):
+                                continue
+                            cand = (cw, r, ())
+                        elif cw and not (cw & cr):
+                            continue
+                        else:
+                            cand = (cw & cr, r, tuple(sorted(cw & cr)))
+                        if best is None or len(cand[0]) > len(best[0]):
+                            best = cand
+                    if best is None:
+                        continue
+                    wt = tuple(sorted(best[0]))
+                    f = (cls, key, sec, w["name"], wt, sec, best[1]["name"], best[2])
+                    if f not in seen:
+                        seen.append(f)
+                out += seen
+    return out
+
+
+def build_fields(rows, emitted):
+    """FIELDS := the derived fields + the hand-written lines for the (class, key) pairs the derivation does not reach"""
+    global FIELDS
+    auto = derive_fields(rows, emitted)
+    covered = {(f[0], f[1]) for f in auto}
+    manual = [f for f in FIELDS_HAND if (f[0], f[1]) not in covered]
+    DERIVED.clear()
+    DERIVED.update(auto)
+    FIELDS = auto + manual
+    return auto, manual
+
+
 # attributes `to_dict` emits that the statement puts outside / that are functions of others: (cls, key) -> reason
 OUTSIDE = {}
 for _c, _d in EXCLUDED.items():
@@ -1001,8 +1091,19 @@ def _ll(xs):
     return "[" + ", ".join(_ls(x) for x in xs) + "]"
 
 
+def emitted_keys(wntr):
+    import c13
+    em, _ = c13.reflect_emitted(wntr)
+    em = {k: list(v) for k, v in em.items()}
+    od = wntr.network.WaterNetworkModel().options.to_dict()
+    for g in ("time", "hydraulic", "quality", "reaction", "energy"):
+        em["Options." + g] = list(od[g].keys())
+    return em
+
+
 def gen_schema_inp_lean(wntr, rows, kw):
     from wntr.epanet.util import HydParam, QualParam
+    build_fields(rows, emitted_keys(wntr))
     out = ["-- GENERATED by harness/props/c12.py from wntr/epanet/io.py (ast).  Do not edit.",
            "-- `fields` / `outside` are the hand-written specification of harness/props/c12.py carried over verbatim.",
            "import WntrModel.Model.InpText", "namespace Wntr.InpSchema.Gen", "open Wntr.InpSchema Wntr.InpFormat", ""]
@@ -1043,14 +1144,21 @@ def gen_schema_inp_lean(wntr, rows, kw):
     out.append("def rows : List Row := table.all\n")
     fl = []
     for (cls, key, wsec, w, wt, rsec, r, rt) in FIELDS:
-        fl.append("  { cls := %s, key := %s, wsec := %s, w := %s, wtoks := %s, rsec := %s, r := %s, rtoks := %s, wids := %s, rids := %s }" % (
-            _ls(cls), _ls(key), _ls(wsec), _ls(w), _ll(wt), _ls(rsec), _ls(r), _ll(rt), ids(wsec, w, wt), ids(rsec, r, rt)))
+        fl.append("  { cls := %s, key := %s, wsec := %s, w := %s, wtoks := %s, rsec := %s, r := %s, rtoks := %s, wids := %s, rids := %s, derived := %s }" % (
+            _ls(cls), _ls(key), _ls(wsec), _ls(w), _ll(wt), _ls(rsec), _ls(r), _ll(rt), ids(wsec, w, wt), ids(rsec, r, rt),
+            "true" if (cls, key, wsec, w, wt, rsec, r, rt) in DERIVED else "false"))
     names = []
     for i in range(0, len(fl), 60):
         nm = "fields%d" % (i // 60)
         names.append(nm)
         out.append("def %s : List Field := [\n%s]\n" % (nm, ",\n".join(fl[i:i + 60])))
     out.append("def fields : List Field := %s\n" % " ++ ".join(names))
+    mk = []
+    for f in FIELDS:
+        if f not in DERIVED and (f[0], f[1]) not in mk:
+            mk.append((f[0], f[1]))
+    out.append("/-- the (class, key) pairs carried by hand-written lines of the specification (the remainder the derivation does not reach) -/")
+    out.append("def manualKeys : List (String × String) := [\n%s]\n" % ",\n".join("  (%s, %s)" % (_ls(c), _ls(k)) for (c, k) in mk))
     out.append("def outside : List (String × String) := [\n%s]\n" % ",\n".join("  (%s, %s)" % (_ls(c), _ls(k)) for (c, k) in sorted(OUTSIDE)))
     out.append("/-- required precision per written numeric slot (hand-written specification of harness/props/c12.py) -/")
     out.append("def precisionReq : List PrecReq := [\n%s]\n" % ",\n".join(
@@ -1663,7 +1771,8 @@ class C12(Check):
             "(model, flow unit, INP version) write/read/compare + second cycle; distinct = distinct feature signature x unit x version; "
             "non-trivial = the model has controls or rules, several demands, sources or curves")
     trusted_base = ["translator harness/props/c12.py (ast of wntr/epanet/io.py: value flow into format calls and into add_*/attribute destinations)",
-                    "the specification table FIELDS / OUTSIDE of harness/props/c12.py (which slot carries which attribute; what the statement excludes)",
+                    "the hand-written REMAINDER of the specification (evidence key spec_hand_written_remainder: the attributes whose slot is named differently from the "
+                    "to_dict key, and the value slots inside controls / rules) and the exclusion list OUTSIDE; every other field is derived from the source by name",
                     "Python float formatting / parsing (bounded per field by the format spec, checked on every case)"]
     assumptions = ["the section readers see a file only through the lines stored per section, in the fixed order InpFile.read calls them (read off the source by ast)",
                    "a value printed with {:W.Ng} is reproduced to 0.5*10^(1-N) relative, with {:.Nf} to 0.5*10^-N absolute (in file units), str() exactly",
@@ -1679,6 +1788,12 @@ class C12(Check):
         txt, n = gen_schema_inp_lean(wntr, rows, kw)
         ctx.cov["schema_rows"] = n
         ctx.cov["schema_fields"] = len(FIELDS)
+        ctx.cov["spec_fields_derived_from_source"] = len(DERIVED)
+        mk = []
+        for f in FIELDS:
+            if f not in DERIVED and "%s.%s" % (f[0], f[1]) not in mk:
+                mk.append("%s.%s" % (f[0], f[1]))
+        ctx.cov["spec_hand_written_remainder"] = mk
         vlib.write_if_changed(os.path.join(vlib.GEN, "SchemaInp.lean"), txt)
         # C12 reuses the to_dict key sets of C13's translator
         import c13
@@ -1727,7 +1842,8 @@ class C12(Check):
                   where=path, expected=old, observed=new)
             # ---- format-preserving permutations of the file must read back to the same model (exact)
             import random as _random
-            prng = _random.Random(hash((label, units, version)) & 0xFFFFFF)
+            import zlib as _zlib
+            prng = _random.Random(_zlib.crc32(repr((label, units, version)).encode()))
             t1raw = open(f1).read()
             d2 = G.jsonify(wntr.network.to_dict(w2))
             secs_present = [b for b in re.findall(r"^\[[A-Z]+\]", t1raw, re.M)]
@@ -2135,7 +2251,8 @@ class C12(Check):
                 for v in o:
                     walk(v)
         walk(sp)
-        vals = sorted(set(vals), key=lambda v: (hash(repr(v)) % 1000, v))[:6]
+        import zlib as _zlib
+        vals = sorted(set(vals), key=lambda v: (_zlib.crc32(repr(v).encode()) % 1000, v))[:6]
         vals += [-v / 86400.0 for v in vals[:2]] + [v * 448.831 for v in vals[:2]]
         out = []
         ks = sorted({sp_[1] for r in self.rows for sp_ in [fmt_spec(r["fmt"])] if r["dir"] == "w" and sp_[0] == "fixed"})
